@@ -122,6 +122,9 @@ fn spec<B: Fld, H: ElementHasher<BaseField = B>>(inst: &Instance, proof: &Proof)
     let lagr = air.context().has_lagrange_kernel_aux_column();
     if nseg > 1 {
         if lagr {
+            // the (stub) GKR proof of the family is the 4-byte trace-length logarithm; prover and
+            // verifier absorb its hash before deriving the Lagrange randomness from the coin
+            s.push(Step::Reseed("gkr-proof", H::hash(&(shape.log_n as u32).to_le_bytes()).as_bytes()));
             s.push(Step::Draws("gkr-lagrange-randomness", shape.log_n as usize));
         }
         s.push(Step::Draws("aux-randomness", proof.trace_info().get_num_aux_segment_rand_elements()));
